@@ -598,3 +598,133 @@ Proof.
 Qed.
 
 End InitP.
+
+(* ---- termination: fuel is never what stops the enumeration ------------- *)
+Section EnumT.
+Variables nx ny : nat.
+Variable E : nat -> nat -> nat -> bool.
+Variable S : nat -> nat -> nat -> nat -> bool.
+Variable pick : (nat -> bool) -> option nat.
+Hypothesis pick_sound : forall p y, pick p = Some y -> y < ny /\ p y = true.
+
+Local Notation step := (step nx ny E S pick).
+Local Notation run := (run nx ny E S pick).
+Local Notation Inv := (Inv nx ny E S).
+Local Notation WF := (WF nx ny E S).
+
+Lemma nodes_bound g : WF g -> length (nodes g) <= nx * ny.
+Proof.
+  intros Hwf.
+  assert (Hrows : forall l : list nat,
+            length (flat_map (fun x => map (fun y => (x, y)) (seq 0 ny)) l) = length l * ny).
+  { induction l as [|a l IH]; [reflexivity|].
+    cbn [flat_map length]. rewrite app_length, map_length, seq_length, IH. lia. }
+  assert (Hlen : length (all_states nx ny) = nx * ny).
+  { unfold all_states. rewrite Hrows, seq_length. reflexivity. }
+  rewrite <- Hlen. apply NoDup_incl_length; [apply (wf_nodup _ _ _ _ g Hwf)|].
+  intros s Hs. apply in_all_states. apply (wf_range _ _ _ _ g Hwf s Hs).
+Qed.
+
+(* the measure: room left for new nodes + queued nodes *)
+Definition mu (g : graph) : nat := (nx * ny - length (nodes g)) + length (queue g).
+
+Lemma process_env_mu g g' u s x' :
+  WF g -> process_env ny S pick s u g x' = Some g' -> WF g' ->
+  length (nodes g') - length (nodes g) = length (queue g') - length (queue g) /\
+  length (nodes g) <= length (nodes g') /\ length (queue g) <= length (queue g').
+Proof.
+  intros Hwf. unfold process_env.
+  destruct (nonempty ny _).
+  - destruct (pick _); [|discriminate]. destruct (find_node _ _ _); [|discriminate].
+    intros H _. inversion H. subst. cbn [nodes queue]. lia.
+  - destruct (nonempty ny _); [|discriminate]. destruct (pick _); [|discriminate].
+    intros H _. inversion H. subst. cbn [nodes queue]. rewrite app_length. cbn [length]. lia.
+Qed.
+
+
+Local Notation process_all := (process_all ny E S pick).
+Local Notation process_env := (process_env ny S pick).
+
+Lemma process_all_mu xs : forall g g' u s,
+  WF g -> nth_error (nodes g) u = Some s -> ~ In u (queue g) ->
+  (forall x', In x' xs -> x' < nx) -> NoDup xs ->
+  process_all s u g xs = Some g' ->
+  length (nodes g') + length (queue g) = length (nodes g) + length (queue g').
+Proof.
+  induction xs as [|x' xs IH]; intros g g' u s Hwf Hu Hnq Hlt Hnd; cbn [EnumModel.process_all].
+  - intros H. inversion H. subst. lia.
+  - inversion Hnd as [|? ? Hnin Hnd']. subst.
+    destruct (E (fst s) (snd s) x') eqn:He.
+    + destruct (process_env s u g x') as [g1|] eqn:Ep; [|discriminate]. intros Hall.
+      destruct (process_env_inv nx ny E S pick pick_sound g g1 u s x' Hwf Hu Hnq He
+                  (Hlt x' (or_introl eq_refl)) Ep) as [Hwf1 [_ Hext1]].
+      destruct (process_env_mu g g1 u s x' Hwf Ep Hwf1) as [H1 [H2 H3]].
+      assert (Hul : u < length (nodes g)) by (apply nth_error_Some; congruence).
+      pose proof (IH g1 g' u s Hwf1 (extends_nth _ _ _ _ Hext1 Hu)
+                    (extends_notin _ _ _ Hext1 Hul Hnq)
+                    (fun y Hy => Hlt y (or_intror Hy)) Hnd' Hall). lia.
+    + intros Hall. apply (IH g g' u s Hwf Hu Hnq (fun y Hy => Hlt y (or_intror Hy)) Hnd' Hall).
+Qed.
+
+Lemma step_mu g g' :
+  Inv g -> queue g <> [] -> step g = Some g' -> mu g' + 1 = mu g.
+Proof.
+  intros [Hwf Hc] Hne. unfold EnumModel.step.
+  destruct (queue g) as [|u q] eqn:Eq; [congruence|].
+  destruct (nth_error (nodes g) u) as [s|] eqn:Eu; [|discriminate].
+  set (g0 := mkG (nodes g) q (edges g)). intros Hall.
+  assert (Hq : NoDup (u :: q)) by (rewrite <- Eq; apply (wf_qnodup _ _ _ _ g Hwf)).
+  inversion Hq as [|? ? Hnin Hq']. subst.
+  assert (Hwf0 : WF g0).
+  { constructor; cbn [nodes queue edges].
+    - apply (wf_nodup _ _ _ _ g Hwf).
+    - apply (wf_range _ _ _ _ g Hwf).
+    - apply (wf_edges _ _ _ _ g Hwf).
+    - intros a Ha. apply (wf_queue _ _ _ _ g Hwf). rewrite Eq. right. exact Ha.
+    - exact Hq'.
+    - intros a e Ha. apply (wf_qfresh _ _ _ _ g Hwf). rewrite Eq. right. exact Ha. }
+  pose proof (process_all_mu (seq 0 nx) g0 g' u s Hwf0 Eu Hnin
+                (fun x' Hx' => proj2 (proj1 (in_seq _ _ _) Hx')) (seq_NoDup _ _) Hall) as Hm.
+  destruct (process_all_inv nx ny E S pick pick_sound (seq 0 nx) g0 g' u s Hwf0 Eu Hnin
+              (fun x' Hx' => proj2 (proj1 (in_seq _ _ _) Hx')) (seq_NoDup _ _) Hall)
+    as [Hwf' _].
+  pose proof (nodes_bound g' Hwf') as Hb. pose proof (nodes_bound g Hwf) as Hb0.
+  unfold mu, g0 in *. cbn [nodes queue] in *. rewrite Eq. cbn [length]. lia.
+Qed.
+
+(* once the fuel covers the measure, more fuel changes nothing: [run] never
+   returns None for lack of fuel, only where the code asserts *)
+Theorem run_fuel_irrelevant fuel : forall g k,
+  Inv g -> mu g <= fuel -> run (fuel + k) g = run fuel g.
+Proof.
+  induction fuel as [|f IH]; intros g k Hi Hm.
+  - destruct (queue g) as [|u q] eqn:Eq.
+    + destruct k; cbn [Nat.add EnumModel.run]; rewrite Eq; reflexivity.
+    + exfalso. unfold mu in Hm. rewrite Eq in Hm. cbn [length] in Hm. lia.
+  - cbn [Nat.add EnumModel.run]. destruct (queue g) as [|u q] eqn:Eq; [reflexivity|].
+    destruct (step g) as [g1|] eqn:Es; [|reflexivity].
+    apply IH; [apply (step_inv nx ny E S pick pick_sound g g1 Hi Es)|].
+    assert (Hne : queue g <> []) by (rewrite Eq; discriminate).
+    pose proof (step_mu g g1 Hi Hne Es). lia.
+Qed.
+
+Corollary run_enough_fuel l q fuel k :
+  NoDup l -> (forall s, In s l -> in_range nx ny s) ->
+  NoDup q -> (forall u, In u q <-> u < length l) ->
+  nx * ny <= fuel ->
+  run (fuel + k) (mkG l q []) = run fuel (mkG l q []).
+Proof.
+  intros Hl Hr Hq Hall Hf. apply run_fuel_irrelevant.
+  - apply init_inv; assumption.
+  - unfold mu. cbn [nodes queue].
+    assert (length q = length l).
+    { apply Nat.le_antisymm.
+      - rewrite <- (seq_length (length l) 0). apply NoDup_incl_length; [exact Hq|].
+        intros u Hu. apply in_seq. apply Hall in Hu. lia.
+      - rewrite <- (seq_length (length l) 0) at 1. apply NoDup_incl_length; [apply seq_NoDup|].
+        intros u Hu. apply in_seq in Hu. apply Hall. lia. }
+    pose proof (nodes_bound (mkG l q []) (proj1 (init_inv nx ny E S l q Hl Hr Hq Hall))) as Hb.
+    cbn [nodes] in Hb. lia.
+Qed.
+
+End EnumT.
